@@ -414,6 +414,56 @@ def r_gram_exh(ck: Checker) -> None:
 
 
 
+def r_all_names_resolved(ck: Checker) -> None:
+    """Every class name of a pattern's alternation is resolved against the registry (an unknown / non-node name anywhere in it rejects the
+    pattern).  Positive pattern: the loop that resolves the names can be left early (`break`, or `return` of a result) before the
+    remaining names were looked at."""
+    f = ck.repo.func(PAT, "PatternDefInterpreter.tree")
+    n = 0
+    for fn in [x for x in (f.raw,) if x is not None] or [f.node]:
+        for lp in [x for x in ast.walk(fn) if isinstance(x, ast.For)]:
+            if not any(isinstance(c, ast.Call) and (dotted(c.func) or "").split(".")[-1] in ("check_and_get_ast_node_type", "_resolve_class_spec") for c in ast.walk(lp)):
+                continue
+            n += 1
+            what = "PatternDefInterpreter.tree resolves every class name of the alternation (no early exit from the resolving loop)"
+            # (a `break` before anything was resolved — the lone `*` of the grammar — is not an early exit from resolving)
+            first_resolve = min((c.lineno for c in ast.walk(lp) if isinstance(c, ast.Call) and (dotted(c.func) or "").split(".")[-1] in ("check_and_get_ast_node_type", "_resolve_class_spec")), default=10**9)
+            early = [x for b in lp.body for x in ast.walk(b) if isinstance(x, ast.Break) and x.lineno > first_resolve]
+            if early:
+                ck.violation("R-GRAM-EXH", f, early[0], what, positive=True,
+                             construct="PatternDefInterpreter.tree: `break` in the loop over the class names — the names after it are never checked, so `(ASTNode | NoSuchClass)` compiles")
+            else:
+                ck.holds("R-GRAM-EXH", f, lp, what)
+    if n == 0:
+        raise Unsupported("PatternDefInterpreter.tree: the loop that resolves the class names was not found", f.node)
+
+
+def r_regex_verbatim(ck: Checker) -> None:
+    """Whether a quoted regex is accepted is decided by re.compile on the text the user wrote.  Wrapping it ((?:...), anchors, flags
+    prefixes) changes which texts compile: a leading global flag group is no longer at the start, an unbalanced `a)(b` becomes balanced
+    (positive pattern: the argument of re.compile in RegexMatcher is an expression built around the text, not the text itself)."""
+    c = ck.repo.cls(PAT, "RegexMatcher")
+    n = 0
+    for st in c.node.body:
+        if not isinstance(st, ast.FunctionDef):
+            continue
+        for x in ast.walk(st):
+            if isinstance(x, ast.Call) and dotted(x.func) in ("re.compile", "compile") and x.args:
+                n += 1
+                a = x.args[0]
+                what = "RegexMatcher compiles exactly the text of the quoted regex"
+                plain = isinstance(a, ast.Name) or (isinstance(a, ast.Attribute) and isinstance(a.value, ast.Name))
+                if plain and len(x.args) == 1 and not x.keywords:
+                    ck.holds("R-GRAM-EXH", (c.mod.rel, f"RegexMatcher.{st.name}"), x, what)
+                elif isinstance(a, (ast.JoinedStr, ast.BinOp)) or (isinstance(a, ast.Call) and isinstance(a.func, ast.Attribute) and a.func.attr in ("format", "join")):
+                    ck.violation("R-GRAM-EXH", (c.mod.rel, f"RegexMatcher.{st.name}"), x, what, positive=True,
+                                 construct=f"RegexMatcher.{st.name}: re.compile({norm(a)[:40]}) compiles a text built around the user's regex — valid regexes (leading inline flags) stop compiling, invalid ones (`a)(b`) start to")
+                else:
+                    raise Unsupported(f"RegexMatcher.{st.name}: re.compile({norm(a)[:40]}, ...) not recognised", x)
+    if n == 0:
+        ck.incomplete("R-GRAM-EXH", None, None, "no re.compile call found in RegexMatcher (1 confirmed by hand)")
+
+
 def r_every_subtree_visited(ck: Checker) -> None:
     """Compiling a sub-pattern is not a pure function of its parse tree: visiting it registers the capture names it contains, and that
     registration is what rejects a capture name used twice / a variable used before its capture.  Positive pattern: a callback of the
@@ -577,7 +627,7 @@ def mutable_globals(ck: Checker) -> dict[str, set[str]]:
     return out
 
 
-def r_no_memo(ck: Checker) -> None:
+def r_no_memo(ck: Checker, rule: str = "R-NO-MEMO") -> None:
     """A memoised function must not read a mutable registry: its answer would go stale when the registry changes
     (a class defined after a first failed lookup would stay unknown for ever)."""
     mg = mutable_globals(ck)
@@ -598,19 +648,19 @@ def r_no_memo(ck: Checker) -> None:
                     reads.add(nn.id)
         what = "memoised functions read no mutable registry (their answers cannot go stale)"
         if reads:
-            ck.violation("R-NO-MEMO", f, f.node, what, positive=True, construct=f"{f.qualname} is memoised ({memo[0]}) but reads the mutable registry {sorted(reads)}")
+            ck.violation(rule, f, f.node, what, positive=True, construct=f"{f.qualname} is memoised ({memo[0]}) but reads the mutable registry {sorted(reads)}")
         else:
-            ck.holds("R-NO-MEMO", f, f.node, what, decorator=memo[0])
+            ck.holds(rule, f, f.node, what, decorator=memo[0])
     for q in (("pyoak.match.helpers", "check_and_get_ast_node_type"), ("pyoak.legacy.match.helpers", "check_and_get_ast_node_type")):
         f = ck.repo.func(*q)
         what = "class names are resolved against the live TYPES registry on every compilation"
         reads_types = any(isinstance(nn, ast.Name) and nn.id == "TYPES" for nn in walk_body(f.node.body))
         if reads_types and not f.node.decorator_list:
-            ck.holds("R-NO-MEMO", f, f.node, what)
+            ck.holds(rule, f, f.node, what)
         elif not reads_types:
-            ck.violation("R-NO-MEMO", f, f.node, what, construct=f"{f.qualname} does not consult TYPES")
+            ck.violation(rule, f, f.node, what, construct=f"{f.qualname} does not consult TYPES")
     if n < 15:
-        ck.incomplete("R-NO-MEMO", None, None, f"only {n} memoised functions found (>= 15 expected)")
+        ck.incomplete(rule, None, None, f"only {n} memoised functions found (>= 15 expected)")
 
 
 ENTRIES = [
@@ -638,6 +688,12 @@ def run(ck: Checker) -> None:
     ck.guard("R-GRAM-EXH", lambda: r_gram_exh(ck))
     ck.guard("R-VAR-ORDER", lambda: r_var_order(ck))
     ck.guard("R-VAR-ORDER", lambda: r_every_subtree_visited(ck))
+    ck.guard("R-GRAM-EXH", lambda: r_regex_verbatim(ck))
+    ck.guard("R-GRAM-EXH", lambda: r_all_names_resolved(ck))
+    from .c07 import r_xp_cache_key
+    ck.guard("R-NO-MEMO", lambda: r_xp_cache_key(ck, rule="R-NO-MEMO"))
+    from . import state_rules as S17
+    ck.guard("R-NO-MEMO", lambda: S17.r_shared_defaults(ck, "R-NO-MEMO", PAT, ("MultiPatternMatcher", "PatternDefInterpreter", "NodeMatcher", "SequenceMatcher")))
     ck.guard("R-GRAM-EXH", lambda: r_unquote(ck))
     ck.guard("R-XP-ELEMENTS", lambda: r_reusable(ck))
     from . import state_rules as S
